@@ -64,6 +64,8 @@ fn verdict_of(s: &Spec) -> AuthPlan {
         "other-uuid" => AuthPlan::Profile { name: cn, uuid: 0xaaaa_bbbb_cccc_4ddd_8eee_ffff_0000_1111, props: vec![] },
         "props-1" => AuthPlan::Profile { name: cn, uuid: cu, props: props(1) },
         "props-2" => AuthPlan::Profile { name: cn, uuid: cu, props: props(2) },
+        // (six properties of 1000 bytes: more than a 5 KiB cookie holds)
+        "props-big" => AuthPlan::Profile { name: cn, uuid: cu, props: (0..6).map(|k| Prop { name: format!("property-{k}"), value: format!("{k}").repeat(1000), signature: None }).collect() },
         "all-differ" => AuthPlan::Profile { name: "Vouched".into(), uuid: 0x0123_4567_89ab_4cde_8f01_2345_6789_abcd, props: props(2) },
         _ => AuthPlan::Err,
     }
@@ -277,7 +279,7 @@ fn specs(thorough: bool) -> Vec<Spec> {
     for n in [1usize, 32] {
         encs.push(format!("token-extended-{n}"));
     }
-    let verdicts = ["claim", "other-name", "other-uuid", "props-1", "props-2", "all-differ", "err"];
+    let verdicts = ["claim", "other-name", "other-uuid", "props-1", "props-2", "props-big", "all-differ", "err"];
     let claims: Vec<&str> = if thorough { vec!["ascii", "unicode", "nil-uuid"] } else { vec!["ascii"] };
     let mut out = vec![];
     for intent in intents {
